@@ -339,6 +339,33 @@ class G:
                   "qry 0 contains 1", "op 0 upper_bound_assign_if_exact 1", "stall", "end"]
         return lines
 
+    def chain_case(self, cid, kind):
+        """x holds a bound only implicitly (through a chain of two constraints, matrix not closed); y bounds the same
+        difference directly: upper bound / difference / comparisons must use the implied bound of x"""
+        r = self.r
+        f = fam(kind)
+        n = 3
+        a, b = r.randint(-3, 3), r.randint(-3, 3)
+        c = a + b + r.choice([-2, -1, 0, 1, 2])
+        if f == "box":
+            xs = [">= %d -1 0 0" % a, ">= %d 0 -1 0" % b]; ys = [">= %d -1 0 0" % c]
+        else:
+            # x: A <= a, B - A <= b   (implies B <= a+b);   y: B <= c
+            xs = [">= %d -1 0 0" % a, ">= %d 1 -1 0" % b]; ys = [">= %d 0 -1 0" % c]
+            if r.random() < 0.5:
+                # x: B - A <= a, C - B <= b (implies C - A <= a+b); y: C - A <= c
+                xs = [">= %d 1 -1 0" % a, ">= %d 0 1 -1" % b]; ys = [">= %d 1 0 -1" % c]
+        if r.random() < 0.5: ys.append(self.con(kind, n))
+        lines = ["case %s" % cid,
+                 "new 0 %s %d cons %d %s" % (kind, n, len(xs), " ".join(xs)),
+                 "new 1 %s %d cons %d %s" % (kind, n, len(ys), " ".join(ys)),
+                 "copy 2 0", "copy 3 1"]
+        lines.append(r.choice(["op 0 upper_bound_assign 1", "op 1 upper_bound_assign 0", "op 0 difference_assign 1", "op 1 difference_assign 0",
+                               "op 0 upper_bound_assign_if_exact 1", "op 0 intersection_assign 1"]))
+        lines += ["qry 2 contains 3", "qry 3 contains 2", "qry 2 is_disjoint_from 3", "qry 2 equals 3", "qry 2 maximize 3 0 0 1 0",
+                  "op 2 unconstrain 0", "op 3 remove_space_dimensions 1 0", "stall", "end"]
+        return lines
+
     def twin_case(self, cid, kind):
         """equal sets with different matrices, and sets one notch apart"""
         r = self.r
@@ -366,5 +393,6 @@ def make_cases(seed, count, kinds, maxdim=3, steps=6, ops=None, pq=0.3, start=0,
         if ops is not None or u < mix[0]: out += g.history(cid, kind, steps, ops, pq)
         elif u < mix[0] + mix[1]: out += g.ctor_case(cid, kind)
         elif u < mix[0] + mix[1] + mix[2] and fam(kind) != "box": out += g.cycle_pair(cid, kind)
-        else: out += g.twin_case(cid, kind)
+        elif g.r.random() < 0.5: out += g.twin_case(cid, kind)
+        else: out += g.chain_case(cid, kind)
     return out
